@@ -502,6 +502,10 @@ def run(chk):
     chk.rule('C04.B', 'parameter binding decision table', floor=6)
     chk.rule('C04.O', 'library callbacks: fresh argument list, enclosing options unchanged', floor=3)
     chk.assumptions += ['models are schema-valid; host functions follow the (args, options) calling convention']
+    from .c01 import check_programs
+    chk.rule('C01.P', 'shared with C01: whole programs evaluated (E9r) - locals / globals, parameter binding (missing null, surplus ignored, trailing array), functions as values, a local '
+             'hiding a global in call position, script functions replacing library functions - against the structured reading', floor=150)
+    chk.guard('C01.P', check_programs, chk, 'C01.P', False)
     ee = EvalExpr(chk.repo, 'C04.L')
     chk.guard('C04.W', check_assignment, chk)
     chk.guard('C04.W', check_global_stores, chk)
